@@ -522,6 +522,10 @@ func runC13(r *Report, tier string) {
 			for _, pr := range [][2]int64{{5, 6}, {6, 5}} {
 				a := fmt.Sprintf("call<%%F>(*$0.Protected, iface<int64>(%d))", pr[0])
 				b := fmt.Sprintf("call<%%F>(*$0.Unprotected, iface<int64>(%d))", pr[1])
+				if len(iv.Params) == 2 {
+					a = fmt.Sprintf("call<%%F>($0, iface<int64>(%d))", pr[0])
+					b = fmt.Sprintf("call<%%F>($1, iface<int64>(%d))", pr[1])
+				}
 				// the presence test is a boolean in-package lookup or the
 				// found-flag of one
 				absent := func(pat string) bool {
@@ -753,7 +757,12 @@ func checkStructureEncodersIV(r *Report, rule string) {
 			}
 			ne++
 			fs := exitFacts(P, x)
-			ok := len(fs.matchAll([]factPat{fp(okp("call<" + shortFn(iv) + ">($0.Headers)"))}, nil)) > 0
+			ok := false
+			for _, ivp := range ivOKs(iv, "$0.Headers") {
+				if len(fs.matchAll([]factPat{fp(ivp)}, nil)) > 0 {
+					ok = true
+				}
+			}
 			r.ob(rule, shortFn(enc)+":iv:"+exitID(P, enc, x), enc, x.ret, "structure encoder carries ok(cross-bucket IV check) on its Headers").check(ok, "ok("+shortFn(iv)+"($0.Headers))", "an encoder success exit lacks ok("+shortFn(iv)+"(Headers))")
 		}
 	}
